@@ -3,6 +3,7 @@ package sim
 import (
 	"bytes"
 	"fmt"
+	"time"
 
 	cose "github.com/veraison/go-cose"
 
@@ -89,7 +90,9 @@ func scenarioC08(r *Run) {
 	}
 	sp := Spelling{T: t, Labels: true, Values: true, AlgLabel: true}
 	ent := NewEntropy(uint64(t.U32("entropy.seed")))
-	switch t.Pick([]int{3, 5, 3, 3}, "c08.object") {
+	switch t.Pick([]int{3, 5, 3, 3, 1}, "c08.object") {
+	case 4:
+		c08GoValues(r, t, ent)
 	case 0:
 		c08Buckets(r, t, sp, maxExtra)
 	case 1:
@@ -517,4 +520,87 @@ func critNames(b Bucket, label *refcbor.Item) bool {
 		}
 	}
 	return false
+}
+
+// c08GoValues: header values of the Go types a caller really uses that are not
+// `any`-containers: time.Time (a signing time, CWT NumericDate claims), typed
+// slices and maps, fixed-size arrays, float32, named types.  No reference
+// bytes are predicted for them (how a Go type maps to CBOR is the encoder's
+// choice); what the property promises is demanded: the same bytes every time,
+// deterministic CBOR, and closure - the message that carries them is accepted
+// by the library's own decoder and re-encodes to the same bytes.
+func c08GoValues(r *Run, t *tape.Tape, ent *Entropy) {
+	type named string
+	type namedInt int32
+	vals := []struct {
+		name string
+		v    any
+	}{
+		{"time.Time", time.Unix(int64(t.Choose(1<<31, "c08.go.time")), 0).UTC()},
+		{"[]string", []string{"b", "a", genText(t, 5)}},
+		{"[]int", []int{3, -1, 70000}},
+		{"[][]byte", [][]byte{{1}, {2, 3}}},
+		{"map[string]int", map[string]int{"zz": 1, "a": 2, "mm": 3, "b": 4}},
+		{"map[int]string", map[int]string{-1: "x", 5: "y", 300: "z", -300: "w"}},
+		{"[2]uint16", [2]uint16{1, 65535}},
+		{"named string", named("n/" + genText(t, 4))},
+		{"named int", namedInt(-7)},
+		{"*int", func() any { x := 5; return &x }()},
+		{"struct", struct {
+			A int    `cbor:"1,keyasint"`
+			B string `cbor:"2,keyasint"`
+		}{7, "s"}},
+	}
+	pick := vals[t.Choose(len(vals), "c08.go.kind")]
+	inProt := t.Bool(1, 2, "c08.go.bucket")
+	k := pickCheapKey(t)
+	h := cose.Headers{Protected: cose.ProtectedHeader{cose.HeaderLabelAlgorithm: cose.Algorithm(k.Alg)}, Unprotected: cose.UnprotectedHeader{}}
+	label := int64(-80000 - t.Choose(50, "c08.go.label"))
+	if inProt {
+		h.Protected[label] = pick.v
+	} else {
+		h.Unprotected[label] = pick.v
+	}
+	if t.Bool(1, 2, "c08.go.cwt") {
+		// RFC 8392 NumericDate claims as time values
+		h.Protected[cose.HeaderLabelCWTClaims] = cose.CWTClaims{4: time.Unix(1900000000, 0).UTC(), 1: "iss"}
+	}
+	where := "unprotected"
+	if inProt {
+		where = "protected"
+	}
+	r.Op("ENCODE", "Go value %s in the %s bucket", pick.name, where)
+	r.Outcome("govalue/" + pick.name + "/" + where)
+	m := &cose.Sign1Message{Headers: h, Payload: []byte("p")}
+	var err error
+	signer := r.signerFor(k, false)
+	r.Lib(func() { err = m.Sign(ent, nil, signer) })
+	if err != nil {
+		r.Outcome("govalue-sign-refused")
+		return
+	}
+	b := r.c08Encode(t, "Sign1Message", func() ([]byte, error) { return m.MarshalCBOR() })
+	if b == nil {
+		r.Outcome("govalue-encode-refused")
+		return
+	}
+	var back cose.Sign1Message
+	r.Lib(func() { err = back.UnmarshalCBOR(b) })
+	r.Check()
+	if err != nil {
+		r.Fail("encoder-output-refused/go-value/"+pick.name+"/"+where, "a Sign1Message with a %s value in its %s bucket is encoded to bytes that Sign1Message.UnmarshalCBOR refuses: %v\n%s", pick.name, where, err, hexShort(b))
+		return
+	}
+	var verr error
+	r.Lib(func() { verr = back.Verify(nil, r.verifierFor(k, false)) })
+	if verr != nil {
+		r.Fail("own-output-does-not-verify/go-value/"+pick.name, "the decoded message does not verify: %v\n%s", verr, hexShort(b))
+		return
+	}
+	back.Headers.RawProtected, back.Headers.RawUnprotected = nil, nil
+	var again []byte
+	r.Lib(func() { again, err = back.MarshalCBOR() })
+	if err != nil || !bytes.Equal(again, b) {
+		r.Fail("decoded-value-reencodes-differently/go-value/"+pick.name+"/"+where, "decode(encode(m)) re-encoded from the parsed headers differs (%v)\nfirst: %s\nagain: %s", err, hexShort(b), hexShort(again))
+	}
 }
